@@ -111,6 +111,54 @@ def case_from_json(j):
     conv = {'rat': Fraction, 'f64': float, 'cplx': complex}[elt]
     return mk(elt, m["kind"], m["n"], [conv(x) for x in m["A"]], "corpus")
 
+STATS = {"exchanges": {}, "det_zero": 0, "det_nonzero": 0, "inverse_identity_checked": 0, "inverse_singular_skipped": 0,
+         "lu_factorisations_checked": 0, "order": {}}
+
+def cdet_exact(A, n):
+    """exact determinant of a complex matrix with binary-float parts: elimination over (Fraction, Fraction) pairs"""
+    def mul(a, b): return (a[0]*b[0] - a[1]*b[1], a[0]*b[1] + a[1]*b[0])
+    def sub(a, b): return (a[0]-b[0], a[1]-b[1])
+    def div(a, b):
+        d = b[0]*b[0] + b[1]*b[1]
+        return ((a[0]*b[0] + a[1]*b[1]) / d, (a[1]*b[0] - a[0]*b[1]) / d)
+    M = [[(Fraction(A[i*n+j].real), Fraction(A[i*n+j].imag)) for j in range(n)] for i in range(n)]
+    det = (Fraction(1), Fraction(0))
+    for k in range(n):
+        p = next((i for i in range(k, n) if M[i][k] != (0, 0)), None)
+        if p is None: return (Fraction(0), Fraction(0))
+        if p != k:
+            M[p], M[k] = M[k], M[p]; det = (-det[0], -det[1])
+        det = mul(det, M[k][k])
+        for i in range(k + 1, n):
+            f = div(M[i][k], M[k][k])
+            if f != (0, 0):
+                for j in range(k, n): M[i][j] = sub(M[i][j], mul(f, M[k][j]))
+    return det
+
+def lu_oracle(items, n, A):
+    """the statement of lu_spec on the implementation's answer (exact): P is a permutation matrix whose sign is (-1)^pivots and
+    P*A = unit_lower(LU)*upper(LU)"""
+    if items[-1][0] == 'P': return "lu_decomp_in_place panicked (%s) on a square %dx%d matrix" % (items[-1][1], n, n)
+    piv = items[0][1]
+    (r, c, P), pos = parse_items_mat(items, 1, 'rat')
+    (r2, c2, LU), pos = parse_items_mat(items, pos, 'rat')
+    if (r, c, r2, c2) != (n, n, n, n): return "LU/permutation have the wrong shape"
+    sigma = []
+    for i in range(n):
+        row = P[i*n:(i+1)*n]
+        if sorted(row) != [0] * (n - 1) + [1]: return "row %d of the permutation matrix is not a unit vector" % i
+        sigma.append(row.index(1))
+    if sorted(sigma) != list(range(n)): return "the permutation matrix is not a permutation"
+    inv = sum(1 for i in range(n) for j in range(i + 1, n) if sigma[i] > sigma[j])
+    if inv % 2 != piv % 2: return "pivots=%d but the permutation has parity %d" % (piv, inv % 2)
+    L = [(LU[i*n+j] if j < i else (Fraction(1) if i == j else Fraction(0))) for i in range(n) for j in range(n)]
+    U = [(LU[i*n+j] if j >= i else Fraction(0)) for i in range(n) for j in range(n)]
+    PA = [A[sigma[i]*n+j] for i in range(n) for j in range(n)]
+    if matmul(L, U, n, n, n) != PA: return "P*A differs from unit_lower(LU)*upper(LU)"
+    STATS["exchanges"][piv] = STATS["exchanges"].get(piv, 0) + 1
+    STATS["lu_factorisations_checked"] += 1
+    return None
+
 def oracle(case, items):
     m = case.meta; elt = case.elt
     if m.get("bad"):
@@ -118,10 +166,14 @@ def oracle(case, items):
         return None
     n, A, kind = m["n"], m["A"], m["kind"]
     exact = elt != 'cplx'
+    STATS["order"][n] = STATS["order"].get(n, 0) + 1
+    if kind == "lu":
+        return lu_oracle(items, n, A) if elt == 'rat' else None
     d = det_exact([Fraction(x) for x in A], n) if exact else None
     if kind == "det":
         if items[-1][0] == 'P': return "determinant panicked (%s) on a %dx%d matrix (exact determinant %s)" % (items[-1][1], n, n, d)
         v, _ = parse_items_scalar(items, 0, elt)
+        if exact: STATS["det_zero" if d == 0 else "det_nonzero"] += 1
         if elt == 'rat':
             if v != d: return "determinant %s differs from the exact determinant %s" % (v, d)
         elif elt == 'f64':
@@ -131,13 +183,20 @@ def oracle(case, items):
             if abs(v - float(d)) > 1e-10 * scale: return "determinant %r differs from exact %r beyond 1e-10*prod(row sums)=%g" % (v, float(d), 1e-10 * scale)
         else:
             if not isfinite(v): return "complex determinant is not finite"
+            dr, di = cdet_exact(A, n); dc = complex(float(dr), float(di))
+            scale = 1.0
+            for i in range(n): scale *= max(1e-300, sum(abs(A[i*n+j]) for j in range(n)))
+            if abs(v - dc) > 1e-10 * scale: return "complex determinant %r differs from exact %r beyond 1e-10*prod(row sums)=%g" % (v, dc, 1e-10 * scale)
         return None
     if kind == "inverse":
-        if exact and d == 0: return None       # singular: outside the quantifier
+        if exact and d == 0:
+            STATS["inverse_singular_skipped"] += 1
+            return None       # singular: outside the quantifier
         if items[-1][0] == 'P':
             return "inverse panicked (%s) on a nonsingular matrix" % items[-1][1] if exact else None
         (r, c, X), _ = parse_items_mat(items, 0, elt)
         if (r, c) != (n, n): return "inverse has shape %dx%d" % (r, c)
+        STATS["inverse_identity_checked"] += 1
         I1 = matmul(A, X, n, n, n); I2 = matmul(X, A, n, n, n)
         for P, nm in ((I1, "A*inv"), (I2, "inv*A")):
             for i in range(n):
@@ -150,3 +209,51 @@ def oracle(case, items):
                         if not isfinite(P[i*n+j]) or abs(e) > tolr: return "%s differs from the identity at (%d,%d) by %g (tol %g)" % (nm, i, j, abs(e), tolr)
         return None
     return None
+
+
+# ---- the forbidden-construct audit over the real dependency closure of Props/C02.v (engine's vfile_deps only sees single-module
+# Require lines; this one follows every `From OV Require [Import|Export] A.B C.D ...` list, multi-line included)
+import re as _re
+def _deps(vfile, seen):
+    if vfile in seen or not os.path.exists(vfile): return seen
+    seen.add(vfile)
+    src = strip_comments(open(vfile).read())
+    for mm in _re.finditer(r"From\s+OV\s+Require\s+(?:Import\s+|Export\s+)?((?:[A-Za-z_][\w']*(?:\.[A-Za-z_][\w']*)*\s*)+)\.", src):
+        for mod in mm.group(1).split():
+            _deps(os.path.join(COQDIR, mod.replace(".", "/") + ".v"), seen)
+    return seen
+
+AUDITED = []
+def extra_checks(exe, rng, tier):
+    ev = []
+    deps = sorted(_deps(os.path.join(COQDIR, "Props", "C02.v"), set()))
+    del AUDITED[:]
+    AUDITED.extend(os.path.relpath(d, COQDIR) for d in deps)
+    need = ["Proofs/LU.v", "Proofs/LUSolve.v", "Proofs/LUInv.v", "Bridge/Det.v", "Legacy/C02Refuted.v", "Model/Solve.v"]
+    missing = [f for f in need if f not in AUDITED]
+    if missing:
+        ev.append(("tie", "dependency audit did not reach %s" % missing, {"audit": "deps", "missing": missing}))
+    outside = _re.compile(r"(?m)^\s*(Variable|Variables|Hypothesis|Hypotheses|Context)\b")
+    for d in deps:
+        src = strip_comments(open(d).read())
+        mm = FORBIDDEN.search(src)
+        if mm:
+            ev.append(("tie", "forbidden construct %r in %s" % (mm.group(0), os.path.relpath(d, COQDIR)), {"audit": "forbidden", "file": d}))
+        depth = 0                       # Variable/Hypothesis only inside a Section
+        for ln in src.splitlines():
+            if _re.match(r"\s*Section\b", ln): depth += 1
+            elif _re.match(r"\s*End\b", ln) and depth > 0: depth -= 1
+            elif depth == 0 and outside.match(ln):
+                ev.append(("tie", "assumption outside a Section in %s: %s" % (os.path.relpath(d, COQDIR), ln.strip()[:80]), {"audit": "section", "file": d}))
+    return ev, {}
+
+def extra_coverage():
+    return {"audited_dependency_files": list(AUDITED),
+            "measured": {"row_exchanges_histogram(lu cases)": {str(k): v for k, v in sorted(STATS["exchanges"].items())},
+                         "odd_exchange_cases": sum(v for k, v in STATS["exchanges"].items() if k % 2 == 1),
+                         "even_exchange_cases": sum(v for k, v in STATS["exchanges"].items() if k % 2 == 0),
+                         "exact_determinants_zero(singular)": STATS["det_zero"], "exact_determinants_nonzero": STATS["det_nonzero"],
+                         "two_sided_inverse_identities_checked": STATS["inverse_identity_checked"],
+                         "inverse_on_singular_input(outside quantifier)": STATS["inverse_singular_skipped"],
+                         "P*A=L*U_checked_on_implementation": STATS["lu_factorisations_checked"],
+                         "cases_by_order": {str(k): v for k, v in sorted(STATS["order"].items())}}}
